@@ -26,6 +26,7 @@ func init() {
 			s := findReadFile(c.P)
 			ruleCTAgree(c, s)
 			ruleODLoop(c, s)
+			ruleDstFresh(c)
 		})
 
 	register("C13",
@@ -39,6 +40,7 @@ func init() {
 			rulePCArg(c, nil, 18, 3)
 			ruleBTWidth(c, true)
 			ruleTSMult(c)
+			ruleTSNoDur(c)
 		})
 }
 
@@ -90,6 +92,7 @@ func init() {
 			ruleSGNames(c)
 			ruleENCSame(c)
 			ruleODClear(c, findReadFile(c.P))
+			ruleDstFresh(c)
 		})
 
 	register("C02",
@@ -116,6 +119,7 @@ func init() {
 			"Not decided: the decoder's overflow constants and zig-zag arithmetic, NaN payloads beyond byte copy, big-endian hosts.",
 		func(c *Ctx) {
 			ruleRCRange(c)
+			ruleRCVarint(c)
 			ruleC17(c)
 			ruleBTWidth(c, true)
 		})
@@ -127,6 +131,7 @@ func init() {
 			"Not decided: termination of count-controlled loops whose body consumes no input, panics inside third-party decoders, stack depth on deeply nested schemas.",
 		func(c *Ctx) {
 			ruleTL(c)
+			ruleArrBound(c)
 			ruleTLIdx(c)
 			ruleNilObj(c)
 			rulePanicReach(c)
@@ -153,5 +158,21 @@ func init() {
 			ruleODBank(c, findReadFile(c.P))
 			ruleLKPool(c)
 			ruleLKGlobal(c)
+			ruleDstFresh(c)
+			ruleODClear(c, findReadFile(c.P))
+		})
+}
+
+func init() {
+	register("C18",
+		"Decides structural necessary conditions of C18 in the hand-written timestamp parser: the instant is assembled by time.Date from the digit fields at the RFC 3339 offsets, in the right argument order, each parsed without error (PT-FIELDS), with the separators checked at their fixed offsets (PT-SEP); a ten-character date is midnight UTC (PT-DATE); nothing may be left over (PT-REM); the per-digit scale of the fraction is guarded so extra digits cannot erase it (TS-FRAC); a numeric zone is sign*(hh*3600+mm*60) of its own digits with '+'/'-'/'Z' handled (TZ-SIGN) and the zone cache is keyed by the offset it builds (TZ-KEY); all constant and range-index offsets stay inside an established minimum length, so no input panics (TL-IDX); times are written with the full-precision layout (FMT-NANO); errors of the digit parsers are checked (ER-CHECK). "+
+			"Not decided: agreement with time.Parse as a value-level equivalence for all strings (digit-to-number arithmetic, validation of field ranges such as month 13).",
+		func(c *Ctx) {
+			ruleParseTime(c)
+			ruleTLIdx(c)
+			c.Rule("ER-CHECK", erClauses["ER-CHECK"], 8)
+			if fn := c.P.Func(c.P.Time, "parseTime"); fn != nil {
+				erCheck(c, fn, erOpts{}, "ER-CHECK", "", "", erClauses)
+			}
 		})
 }
